@@ -10,11 +10,12 @@ PROPS_MODULE = "C16_Properties"
 THEOREMS = ["C16_total", "C16_sound", "C16_rejects", "C16_rejects_unparseable_url", "C16_rejects_mixed_schemes",
             "C16_rejects_unusable_pem", "C16_rejects_unknown_reference", "C16_rejects_bad_flowcontrol",
             "C16_model_meets_spec", "C16_sound_refuted_without_insecure_ca_check"]
-EVAL = "C16_Check.eval"
-CLAUSES = ["agree", "total", "sound", "rejects"]
+EVAL = "C16_Check.eval_x"
+CLAUSES = ["agree", "total", "sound", "rejects", "sound_update", "sound_remote"]
 COQ_SHARD = 300
-RULE = ("distinct objects (canonical JSON of the generated description) with at least one server and one dispatch "
-        "policy, i.e. objects whose verdict is not decided by the two top-level 'required' checks alone")
+RULE = ("distinct objects, or pairs (object 1, object 2 applied on top of it), by canonical JSON of the generated "
+        "description, in which every object has at least one server and one dispatch policy, i.e. whose verdict is not "
+        "decided by the two top-level 'required' checks alone")
 TRUSTED_BASE = [
     "Coq 8.16.1 kernel + vm_compute (case files); no native_compute, no extraction",
     "hand-written model C16_Model.v tied to /repo by the differential run of this check (harness/c16: real "
@@ -156,7 +157,67 @@ def corpus():
     cs.append(mut(policies__0__logmode="ON"))
     cs.append(mut(policies=[]))
     cs.append(mut(logging="loud"))
+    cs += corpus_pairs()
     return cs
+
+
+def pair(a, b, stream="corpus-pair"):
+    a = copy.deepcopy(a)
+    b = copy.deepcopy(b)
+    b.pop("v2", None)
+    a["v2"] = b
+    a["stream"] = stream
+    return a
+
+
+def corpus_pairs():
+    S = schema
+    mri_a = mut(schemas=[S("s1", "globalAllocate", mri=10, gmri=100)])
+    tb_a = mut(schemas=[S("s1", "globalAllocate", tb=[5, 10], gtb=[50, 100])])
+    mri_c = mut(schemas=[S("s1", "globalCount", mri=10, gmri=100)])
+    tb_c = mut(schemas=[S("s1", "globalCount", tb=[5, 10], gtb=[50, 100])])
+    http = mut(servers=[srv(EP_HTTP[0])], cc__ca="none", cc__token="none")
+    ps = [
+        # the three defects of the remote path (found by this check, see build/fixes/C16_*.diff)
+        pair(mut(schemas=[S("s1", "globalCount", mri=10)]), mri_a),          # wrapper without limiter asked for its type
+        pair(mut(schemas=[S("s1", "globalCount", tb=[5, 10])]), tb_a),
+        pair(mri_a, tb_a),                                                   # stale remote limiter / stale status
+        pair(tb_a, mri_a),
+        # other transitions of a global schema
+        pair(mri_c, tb_c), pair(tb_c, mri_c), pair(mri_c, mri_a), pair(mri_a, mri_c),
+        pair(mri_c, mut(schemas=[S("s1", "globalCount", mri=10)])),
+        pair(mri_a, mut(schemas=[S("s1", "globalAllocate", mri=10)])),
+        pair(mri_a, mut(schemas=[S("s1", "globalAllocate", mri=0, gmri=0)])),
+        pair(mri_a, mut(schemas=[S("s1", "local", tb=[5, 10])])),
+        pair(mri_a, mut(schemas=[S("s1", "", mri=10, gmri=100)])),
+        pair(mri_a, mut(schemas=[], policies__0__schema="")),
+        pair(mut(schemas=[], policies__0__schema=""), mri_a),
+        pair(mri_a, mut(schemas=[S("s2", "globalAllocate", mri=10, gmri=100)], policies__0__schema="s2")),
+        pair(mri_a, mut(schemas=[S("s1", "globalAllocate", mri=10, gmri=100), S("s2", "globalCount", tb=[1, 1], gtb=[9, 9])])),
+        pair(mut(schemas=[S("s1", "local", exempt=True)]), mri_a),
+        # invalid second versions: what validation protects the data plane from
+        pair(base(), mut(schemas=[S("s1", "local", gmri=5)])),               # only a global member: panic
+        pair(mri_a, mut(schemas=[S("s1", "globalAllocate", mri=10, gtb=[5, 5])])),   # global member of the other kind
+        pair(mri_a, mut(schemas=[S("s1", "globalAllocate", exempt=True, gmri=5)])),
+        pair(base(), mut(ss__ca="garbage")), pair(base(), mut(ss__key="keyA", ss__cert="certB")),
+        pair(mut(gate="DenyAllRequests=true"), mut(gate="Nope=true")),
+        pair(base(), mut(servers__1__ep="https://%zz")),
+        # no-change and section updates of valid objects
+        pair(base(), base()), pair(http, base()), pair(base(), http),
+        pair(base(), mut(servers=[srv(EP_HTTPS[0]), srv(EP_HTTPS[1], True), srv(EP_HTTPS[2])])),
+        pair(base(), mut(servers=[srv(EP_HTTPS[2])], policies__0__subset=[EP_HTTPS[2]])),
+        pair(base(), mut(ss__key="keyA", ss__cert="certA", ss__ca="ca")),
+        pair(mut(ss__key="keyA", ss__cert="certA", ss__ca="ca"), base()),
+        pair(mut(ss__key="keyA", ss__cert="certA"), mut(ss__key="keyA")),
+        pair(mut(ss__key="keyA"), mut(ss__key="keyA", ss__cert="certA")),
+        pair(mut(ss__key="keyA", ss__cert="certA"), mut(ss__key="keyB", ss__cert="certB")),
+        pair(mut(ss__ca="ca"), mut(ss__ca="ca2")),
+        pair(mut(gate="DenyAllRequests=true"), base()), pair(base(), mut(gate="Tracing=true,GlobalRateLimiter=false")),
+        pair(mut(ss__names=["a", "c1"]), mut(ss__names=["C1", "b"])),
+        pair(base(), mut(cc__key="keyA", cc__cert="certA", cc__token="none")),
+        pair(mut(name="UPPER"), mut(name="UPPER", schemas=[S("s1", "globalAllocate", mri=10, gmri=100)])),
+    ]
+    return ps
 
 
 # ----------------------------------------------------------------------------- generators
@@ -314,9 +375,37 @@ def malformed(rng):
     return o
 
 
+def gen_pair(rng):
+    v1 = well_formed(rng)
+    if rng.chance(1, 6):
+        mutate(rng, v1)
+    k = rng.below(10)
+    if k < 6:
+        v2 = copy.deepcopy(v1)
+        n = rng.randint(1, 3)
+        for _ in range(n):
+            mutate(rng, v2)
+        st = "pair-mutated-%d" % n
+    elif k < 8:
+        v2 = well_formed(rng)
+        st = "pair-independent"
+    elif k < 9:
+        # flow-control transitions on a shared schema name, mostly valid ones
+        v2 = copy.deepcopy(v1)
+        nm = rng.choice(["s1", "s2"])
+        v1["schemas"] = [good_schema(rng, nm)] + [x for x in v1["schemas"] if x["name"] != nm]
+        v2["schemas"] = [good_schema(rng, nm)] + [x for x in v2["schemas"] if x["name"] != nm]
+        st = "pair-flowcontrol"
+    else:
+        v2 = malformed(rng)
+        st = "pair-malformed"
+    v2["name"] = v1["name"]
+    return pair(v1, v2, st)
+
+
 def generate(rng, tier, scale=1):
-    nw, nm, nx = (250, 650, 350) if tier == "quick" else (2000, 6000, 3000)
-    nw, nm, nx = nw * scale, nm * scale, nx * scale
+    nw, nm, nx, npair = (150, 330, 170, 260) if tier == "quick" else (1200, 3600, 1800, 2500)
+    nw, nm, nx, npair = nw * scale, nm * scale, nx * scale, npair * scale
     cs = []
     for _ in range(nw):
         o = well_formed(rng)
@@ -331,11 +420,16 @@ def generate(rng, tier, scale=1):
         cs.append(o)
     for _ in range(nx):
         cs.append(malformed(rng))
+    for _ in range(npair):
+        cs.append(gen_pair(rng))
     return cs
 
 
 def go_case(c):
-    return {k: v for k, v in c.items() if k != "stream"}
+    d = {k: v for k, v in c.items() if k != "stream"}
+    if d.get("v2"):
+        d["v2"] = go_case(d["v2"])
+    return d
 
 
 # ----------------------------------------------------------------------------- classification of field errors
@@ -417,12 +511,12 @@ def has(m):
     return m not in ("none", "empty", "")
 
 
-def facts_term(case, of):
-    ids = {}
+def facts_term(case, of, ids=None, names=None):
+    ids = {} if ids is None else ids
+    names = {"": 0} if names is None else names
 
     def eid(s):
         return ids.setdefault(s, len(ids) + 1)
-    names = {"": 0}
 
     def nid(s):
         return names.setdefault(s, len(names))
@@ -457,18 +551,43 @@ DUMMY_FACTS = ("(Build_facts true GAbsent [] (Build_clientcfg false false false 
                "(Build_serving false false false false false) [] true [])")
 
 
-def coq_case(case, obs):
-    if "panic" in obs or "facts" not in obs:
-        # the harness itself failed on this object (not the code under test): visible as a correspondence break
-        return "(Build_case %s (Build_obs (VErrs []) Err false Panic Panic Panic))" % DUMMY_FACTS
+RRES = {"ok": "ROk", "err": "RErr", "panic": "RPanic", "skip": "RSkip"}
+DUMMY_CASE = "(Build_case %s (Build_obs (VErrs []) Err false Panic Panic Panic))" % DUMMY_FACTS
+
+
+def single_term(case, obs, ids, names):
     v = "VPanic" if obs["validate"] != "ok" else "(VErrs %s)" % clist(classify(obs["errs"]))
     return ("(Build_case %s (Build_obs %s %s %s %s %s "
-            "%s))" % (facts_term(case, obs["facts"]), v, ARES[obs["admit"]], cbool(obs["admit_gate_err"]),
-                                   ARES[obs["create"]], ARES[obs["ctrl"]], ARES[obs["lim"]]))
+            "%s))" % (facts_term(case, obs["facts"], ids, names), v, ARES[obs["admit"]], cbool(obs["admit_gate_err"]),
+                      ARES[obs["create"]], ARES[obs["ctrl"]], ARES[obs["lim"]]))
+
+
+def pem_same(a, b):
+    return (not has(a) and not has(b)) or a == b
+
+
+def coq_case(case, obs):
+    if "panic" in obs or "facts" not in obs or "rem" not in obs:
+        # the harness itself failed on this object (not the code under test): visible as a correspondence break
+        return "(Build_xcase %s None true [])" % DUMMY_CASE
+    ids, names = {}, {"": 0}
+    c1 = single_term(case, obs, ids, names)
+    x2 = "None"
+    if case.get("v2"):
+        v2, o2, u = case["v2"], obs["v2"], obs["upd"]
+        d = "(Build_delta %s %s %s)" % (cbool(pem_same(case["ss"]["key"], v2["ss"]["key"])),
+                                        cbool(pem_same(case["ss"]["cert"], v2["ss"]["cert"])),
+                                        cbool(pem_same(case["ss"]["ca"], v2["ss"]["ca"])))
+        info = "None" if u["info"] == "nocreate" else "(Some %s)" % ARES[u["info"]]
+        x2 = "(Some (%s, %s, (Build_upd_obs %s %s %s)))" % (single_term(v2, o2, ids, names), d, info,
+                                                           ARES[u["ctrl"]], ARES[u["lim"]])
+    rs = clist(["(Build_round_res %s %s %s %s)" % (RRES[r["sync"]], RRES[r["count"]], RRES[r["alloc"]], RRES[r["load"]])
+                for r in obs["rem"]])
+    return "(Build_xcase %s %s %s %s)" % (c1, x2, cbool(obs["facts"]["name_lower"]), rs)
 
 
 def nontrivial_key(case, obs):
-    if case["servers"] and case["policies"]:
+    if case["servers"] and case["policies"] and (not case.get("v2") or (case["v2"]["servers"] and case["v2"]["policies"])):
         return json.dumps(go_case(case), sort_keys=True)
     return None
 
@@ -482,10 +601,30 @@ def stats(case, obs):
             "admit/create:%s/%s" % (obs["admit"], obs["create"])]
     for c in set(re.sub(r"[() 0-9]", "", x) for x in classify(obs["errs"])):
         labs.append("class:" + c)
+    for i, r in enumerate(obs.get("rem", [])):
+        labs.append("remote-round%d:%s/%s/%s/%s" % (i, r["sync"], r["count"], r["alloc"], r["load"]))
+    if case.get("v2") and obs.get("upd"):
+        u = obs["upd"]
+        labs.append("pair admit:%s->%s update info/ctrl/lim:%s/%s/%s" % (obs["admit"], obs["v2"]["admit"], u["info"], u["ctrl"], u["lim"]))
     return labs
 
 
 def shrink(case):
+    if case.get("v2"):
+        v2 = case["v2"]
+        yield {k: v for k, v in case.items() if k != "v2"}              # is object 1 alone enough?
+        yield dict(copy.deepcopy(v2), stream=case.get("stream", "?"))   # or object 2 alone?
+        for c in shrink1({k: v for k, v in case.items() if k != "v2"}):
+            c["v2"] = copy.deepcopy(v2)
+            yield c
+        for c in shrink1(v2):
+            yield dict(copy.deepcopy({k: v for k, v in case.items() if k != "v2"}), v2=c)
+        return
+    for c in shrink1(case):
+        yield c
+
+
+def shrink1(case):
     b = base()
     for k in ("servers", "schemas", "policies"):
         for i in range(len(case[k])):
@@ -518,7 +657,9 @@ def neighbours(case, rng):
     for c in shrink(case):
         yield c
     for _ in range(20):
-        yield mutate(rng, copy.deepcopy(case))
+        c = copy.deepcopy(case)
+        mutate(rng, c["v2"] if c.get("v2") and rng.chance(1, 2) else c)
+        yield c
 
 
 def known_match(entry, case, obs, failed):
